@@ -180,6 +180,23 @@ Theorem C17_verdict_sound_denoted_partial :
 Proof. exact verdict_sound_denoted. Qed.
 Print Assumptions C17_verdict_sound_denoted_partial.
 
+(* Which fragments pkglint has to analyse on their own (Spec/SpellingIndep.analysed_alone, the
+   prediction the package-tree layer tests the binary against) does not depend on how the
+   .include lines are spelled, and a fragment that an .include line denotes is never one of them. *)
+Theorem C17_analysed_alone_spelling_independent :
+  forall (cwd pkgdir fragdir fragbase : str) (incs incs' : list (str * str)),
+    Forall2 (fun i j => denote cwd (join_path (fst i) (snd i)) = denote cwd (join_path (fst j) (snd j))) incs incs' ->
+    analysed_alone cwd pkgdir fragdir fragbase incs = analysed_alone cwd pkgdir fragdir fragbase incs'.
+Proof. exact analysed_alone_spelling_independent. Qed.
+Print Assumptions C17_analysed_alone_spelling_independent.
+
+Theorem C17_included_fragment_not_alone :
+  forall (cwd pkgdir fragdir fragbase : str) (incs : list (str * str)) (i : str * str),
+    In i incs -> denote cwd (join_path (fst i) (snd i)) = denote cwd (join_path fragdir fragbase) ->
+    analysed_alone cwd pkgdir fragdir fragbase incs = false.
+Proof. exact included_fragment_not_alone. Qed.
+Print Assumptions C17_included_fragment_not_alone.
+
 (* ---------- conditional sections (.if ... .endif) ----------
 
    cprogram      : every line carries Indentation.IsConditional() (Model/RedundantCond.v)
